@@ -366,6 +366,49 @@ theorem check_total_false_before_fix :
     "ed25519: bad public key length", ?_⟩
   decide
 
+/-! ### the key from the get-method integer -/
+
+theorem beNat_replicate_zero (z : Nat) (l : List UInt8) : beNat (List.replicate z 0 ++ l) = beNat l := by
+  induction z with
+  | zero => rfl
+  | succ z ih => rw [List.replicate_succ, List.cons_append, beNat_zero_cons, ih]
+
+theorem leading_zeros_split : ∀ (pk : List UInt8), beNat pk ≠ 0 → ∃ z b t, pk = List.replicate z 0 ++ b :: t ∧ b ≠ 0
+  | [], h => absurd rfl h
+  | x :: xs, h => by
+    by_cases hx : x = 0
+    · subst hx
+      rw [beNat_zero_cons] at h
+      obtain ⟨z, b, t, he, hb⟩ := leading_zeros_split xs h
+      exact ⟨z + 1, b, t, by rw [he, List.replicate_succ, List.cons_append], hb⟩
+    · exact ⟨0, x, xs, rfl, hx⟩
+
+/-- The get-method returns the public key as a 256-bit integer; `getWalletPubKey` turns it back into 32 bytes by
+LEFT-padding the significant bytes (`big.Int.Bytes()` drops leading zero bytes). For every 32-byte key with at least
+24 significant bytes — in particular the 1-in-256 keys that start with a zero byte — the key comes back unchanged. -/
+theorem pubkey_from_int_roundtrip (pk : List UInt8) (hl : pk.length = 32) (hsig : 256 ^ 23 ≤ beNat pk) :
+    getWalletPubKey (.int (beNat pk : Nat)) = .ok pk := by
+  have hne : beNat pk ≠ 0 := by
+    have : 0 < 256 ^ 23 := by norm_num
+    omega
+  obtain ⟨z, b, t, he, hb⟩ := leading_zeros_split pk hne
+  have hval : beNat pk = beNat (b :: t) := by rw [he, beNat_replicate_zero]
+  have hnb : natBytes (beNat pk) = b :: t := by rw [hval]; exact natBytes_beNat_cons b t hb
+  have hlen : z + (t.length + 1) = 32 := by
+    have := congrArg List.length he
+    simpa [hl] using this.symm
+  have h24 : 24 ≤ t.length + 1 := by
+    have hlt := beNat_lt (b :: t)
+    rw [← hval, List.length_cons] at hlt
+    have : (256 : Nat) ^ 23 < 256 ^ (t.length + 1) := Nat.lt_of_le_of_lt hsig hlt
+    have := (Nat.pow_lt_pow_iff_right (by norm_num : 1 < 256)).mp this
+    omega
+  unfold getWalletPubKey
+  simp only [Int.natAbs_natCast, hnb, List.length_cons]
+  rw [if_neg (by omega)]
+  have : 32 - (t.length + 1) = z := by omega
+  rw [this, ← he]
+
 /-! ### what is signed -/
 
 /-- The byte string that is hashed and signed determines the workchain, the 32-byte address, the domain, the timestamp
